@@ -381,6 +381,38 @@ def check_entities(ctx, prog, f):
                 key = [w for w in walk_expr(l['a'][0]) if w.get('k') == 'str']
                 if key:
                     ents[bytes(key[0]['b']).decode('latin-1')] = const_val(e['y']) & 255
+    # ... or keeps the names in a constant table of (name, character) pairs that decode() or a helper it calls looks up, or compares
+    # the reference with literals one by one (`ref == "amp"` ... '&')
+    def table_pairs(g):
+        def walk_init(it):
+            if not isinstance(it, dict):
+                return
+            if it.get('k') == 'initlist':
+                strs = [x for x in it.get('items', []) if isinstance(x, dict) and x.get('k') == 'str']
+                ints = [x for x in it.get('items', []) if isinstance(x, dict) and const_val(x) is not None and x.get('k') != 'str']
+                if len(strs) == 1 and len(ints) == 1:
+                    ents.setdefault(bytes(strs[0]['b']).decode('latin-1'), const_val(ints[0]) & 255)
+                for x in it.get('items', []):
+                    walk_init(x)
+        walk_init(g.get('init'))
+    scope = [f]
+    for e in fn_exprs(f):
+        if e.get('k') == 'call' and e.get('fn') and not e.get('clsp'):
+            scope += [h for h in prog.fn(e['fn'], e.get('sig')) if h.get('body') and (h.get('file') or '') == (f.get('file') or '')]
+    if not ents:
+        for h in scope:
+            for e in fn_exprs(h):
+                if e.get('k') == 'var' and e.get('q') in prog.globals and prog.globals[e['q']].get('const') and (prog.globals[e['q']].get('init') or {}).get('k') == 'initlist':
+                    table_pairs(prog.globals[e['q']])
+    if not ents:
+        for h in scope:
+            for st in ir.walk_stmts(h['body']):
+                if st.get('k') == 'if':
+                    lits = [w for w in walk_expr(st['c']) if w.get('k') == 'str']
+                    cmp_ = any(w.get('k') == 'call' and w.get('op') == '==' for w in walk_expr(st['c']))
+                    vals = [const_val(w) for x in ir.stmt_exprs(st['then']) for w in walk_expr(x) if w.get('k') == 'int' and w.get('chr')]
+                    if cmp_ and len(lits) == 1 and len(vals) == 1:
+                        ents.setdefault(bytes(lits[0]['b']).decode('latin-1'), vals[0] & 255)
     bad = [(chr(b), n) for b, n in effective.items() if ents.get(n) != b]
     ctx.check(not bad, 'C07.entities', f['pq'], 'decode:entity table inverts the encoder', fwhere(f), 'entities %s' % sorted(ents), 'the decoder\'s entity table does not map %s back to the byte the encoder replaced' % bad)
     # attributes written inside double quotes
